@@ -8,12 +8,14 @@ import GdVerif.Run.TheShip
 import GdVerif.Run.GenTheShip
 import GdVerif.Run.Battalion
 import GdVerif.Run.GenBattalion
+import GdVerif.Run.Eco
+import GdVerif.Run.GenEco
 /-
   Registration of the single-game families (C07): entries and generators.
 -/
 namespace Gd.Run
 
-def smallEntries : List (String × (List String → String)) := mindustryEntries ++ savage2Entries ++ ffowEntries ++ theShipEntries ++ battalionEntries
+def smallEntries : List (String × (List String → String)) := mindustryEntries ++ savage2Entries ++ ffowEntries ++ theShipEntries ++ battalionEntries ++ ecoEntries
 
 def smallGen (suite : String) (seed n : Nat) : Option (List String) :=
   match suite with
@@ -22,6 +24,7 @@ def smallGen (suite : String) (seed n : Nat) : Option (List String) :=
   | "ffow" => some (genFfow seed n)
   | "theship" => some (genTheShip seed n)
   | "battalion" => some (genBattalion seed n)
+  | "eco" => some (genEco seed n)
   | _ => none
 
 end Gd.Run
